@@ -77,6 +77,13 @@ def _fields(case, k=0):
         F = np.ones(npts)
     else:
         F = rs.standard_normal(npts) * (1.0 + 5.0 * rs.rand(*npts))
+        # fields of one sign (round 11): the neutral elements of the min / max reductions must lie beyond any data,
+        # whatever its sign or size
+        sign = case.get('sign', 'mixed')
+        if sign == 'negative':
+            F = -np.abs(F) - 0.5
+        elif sign == 'positive':
+            F = np.abs(F) + 0.5
     PHI = rs.standard_normal(npts[:3]) + 1j * rs.standard_normal(npts[:3])
     return F, PHI
 
@@ -94,7 +101,8 @@ def gen_norms(rng):
     sched['poison'] = rng.random() < 0.5
     return dict(kind='norms', P=g[0] * g[1], npts=npts, grid=g, uniform=rng.random() < 0.2,
                 eseed=rng.randrange(1 << 30), fseed=rng.randrange(1 << 30), one=rng.random() < 0.15,
-                root=rng.randrange(g[0] * g[1]), fix_axis=rng.randrange(4), second_grid=rng.random() < 0.3, int_coords=rng.random() < 0.08, sched=sched)
+                root=rng.randrange(g[0] * g[1]), fix_axis=rng.randrange(4), second_grid=rng.random() < 0.3, int_coords=rng.random() < 0.08, sched=sched,
+                sign=rng.choice(['mixed', 'mixed', 'negative', 'negative', 'positive']))
 
 
 def gen_collector(rng):
